@@ -58,6 +58,7 @@ type Sent struct {
 	EndOff int64 // bytes accepted by the transport in this direction when the call returned
 	Step0  int   // event stamps: call / return
 	Step1  int
+	W0, W1 int // transport write calls made during the call: [W0, W1)
 }
 
 type flag struct{ v int32 }
@@ -79,6 +80,11 @@ type End struct {
 	Recv    []Msg
 	RecvErr error
 	Crashed bool
+	HsW0, HsW1      int
+	ClosedByFault   bool
+	CloseOutTotal   int64
+	CloseInConsumed int64
+	// W0/W1: transport write-call index range of each Sent item; HsW: of the handshake
 	// RecvSteps[i] is the scheduler step at which message i was returned.
 	RecvSteps []int
 }
@@ -153,7 +159,7 @@ func NewSession(p *kernel.Plan, mode kernel.Mode, maxSteps int) *Session {
 			}
 		case "rerr":
 			if pipe != nil {
-				pipe.RErrAt, pipe.RErrN, pipe.RErr = int(f.At), int(f.Arg), ErrInjRead
+				pipe.RErrAt, pipe.RErrN, pipe.RErr, pipe.RErrStick = int(f.At), int(f.Arg), ErrInjRead, true
 			}
 		case "werr":
 			if pipe != nil {
@@ -171,6 +177,9 @@ func NewSession(p *kernel.Plan, mode kernel.Mode, maxSteps int) *Session {
 			s.S.AtStep(int(f.At), func() {
 				if !e.Crashed {
 					e.Crashed = true
+					e.CloseOutTotal = e.Conn.Out.Total
+					e.CloseInConsumed = e.Conn.In.Consumed
+					e.ClosedByFault = true
 					e.Conn.Close()
 					s.S.SchedEv("fault", "close "+e.Name)
 				}
@@ -190,6 +199,8 @@ func (s *Session) peer(e *End) *End {
 func (s *Session) crash(e *End) {
 	if !e.Crashed {
 		e.Crashed = true
+		e.CloseOutTotal = e.Conn.Out.Total
+		e.CloseInConsumed = e.Conn.In.Consumed
 		e.Conn.Close()
 	}
 }
@@ -286,7 +297,10 @@ func (s *Session) handshake(e *End, t *kernel.Task) error {
 func (s *Session) writer(e *End) func(t *kernel.Task) {
 	return func(t *kernel.Task) {
 		if !s.SkipHandshake {
-			if err := s.handshake(e, t); err != nil {
+			e.HsW0 = e.Conn.Out.St.Writes
+			err := s.handshake(e, t)
+			e.HsW1 = e.Conn.Out.St.Writes
+			if err != nil {
 				e.HsErr = err
 				t.Evf("hs-fail", "%s at %s: %v", e.Name, e.HsStage, err)
 				s.crash(e)
@@ -321,9 +335,9 @@ func (s *Session) writer(e *End) func(t *kernel.Task) {
 				m.Timestamp = uint64(op.N[2])
 				m.Payload = Body(op)
 				want := Msg{Type: byte(op.N[0]), SID: uint32(op.N[1]), TS: uint32(op.N[2]), Payload: m.Payload}
-				st0 := s.S.Steps
+				st0, w0 := s.S.Steps, e.Conn.Out.St.Writes
 				err := e.Proto.WriteMessage(m)
-				e.Sent = append(e.Sent, Sent{Op: i, Msg: want, Err: err, EndOff: e.Conn.Out.Total, Step0: st0, Step1: s.S.Steps})
+				e.Sent = append(e.Sent, Sent{Op: i, Msg: want, Err: err, EndOff: e.Conn.Out.Total, Step0: st0, Step1: s.S.Steps, W0: w0, W1: e.Conn.Out.St.Writes})
 				t.Evf("wrote", "%s %v err=%v", e.Name, want, err)
 				if err != nil {
 					s.crash(e)
@@ -334,9 +348,9 @@ func (s *Session) writer(e *End) func(t *kernel.Task) {
 				pkt.ChunkSize = uint32(op.N[0])
 				b, _ := pkt.MarshalBinary()
 				want := Msg{Type: 1, SID: 0, TS: 0, Payload: b}
-				st0 := s.S.Steps
+				st0, w0 := s.S.Steps, e.Conn.Out.St.Writes
 				err := e.Proto.WritePacket(pkt, 0)
-				e.Sent = append(e.Sent, Sent{Op: i, Msg: want, IsSCS: true, Err: err, EndOff: e.Conn.Out.Total, Step0: st0, Step1: s.S.Steps})
+				e.Sent = append(e.Sent, Sent{Op: i, Msg: want, IsSCS: true, Err: err, EndOff: e.Conn.Out.Total, Step0: st0, Step1: s.S.Steps, W0: w0, W1: e.Conn.Out.St.Writes})
 				t.Evf("wrote-scs", "%s %d err=%v", e.Name, op.N[0], err)
 				if err != nil {
 					s.crash(e)
